@@ -1494,6 +1494,18 @@ func (w *vfCFWorld) modelCeil(r int) int {
 	return h
 }
 
+// lieFloor returns the highest model height whose lie position is at or below
+// real height r (the last model height a request ending at r covers).
+func (w *vfCFWorld) lieFloor(r int) int {
+	h := 0
+	for k := 1; k < len(w.liePos); k++ {
+		if w.liePos[k] <= r {
+			h = k
+		}
+	}
+	return h
+}
+
 // mustAnswer lists the unbanned peers that always answer this kind of query.
 func (e *vfCFEnv) mustAnswer(q string) []int {
 	rs := []int{}
@@ -1522,11 +1534,14 @@ func (e *vfCFEnv) autoRun(out *vfCFPathOut) {
 		case "top":
 			cands = []vfCFAct{mk("Begin")}
 		case "loop":
-			g := mk("GcSend")
+			g, r := mk("GcSend"), mk("RStart")
 			g.Hi = e.w.modelCeil(int(e.lastH))
-			cands = []vfCFAct{mk("LoopRestart"), g, mk("RStart")}
+			r.Hi = g.Hi
+			cands = []vfCFAct{mk("LoopRestart"), g, r}
 		case "resolve":
-			cands = []vfCFAct{mk("RStart")}
+			r := mk("RStart")
+			r.Hi = e.w.modelCeil(int(e.lastH))
+			cands = []vfCFAct{r}
 		case "q_cp":
 			a := mk("GetCheckpts")
 			a.Rs, a.Hi = e.mustAnswer("cp"), e.w.modelCeil(int(e.lastH))
@@ -1538,7 +1553,7 @@ func (e *vfCFEnv) autoRun(out *vfCFPathOut) {
 				a.Lo = e.w.modelCeil(int(q.StartHeight))
 				a.Hi = a.Lo
 				if _, r, ok := e.locate(q.StopHash); ok {
-					a.Hi = e.w.modelCeil(r)
+					a.Hi = e.w.lieFloor(r)
 				}
 			}
 			cands = []vfCFAct{a}
